@@ -1,4 +1,5 @@
 import DinoProofs.Lemmas.SHEquiv
+import DinoProofs.Lemmas.SHEquivLat
 
 /-!
 # C09 — the two spherical-harmonic implementations are observationally equivalent
@@ -20,6 +21,17 @@ ring of scalars (a field where the code divides).
   `laplacian_iota`, `inverseLaplacian_iota`.
 * T9.4 `fastSynthStacked_eq`, `fastAnalysisStacked_eq`; T9.5 `fastSynthOpt_eq`,
   `fastAnalysisOpt_eq` (every value of the option record gives the same result).
+* Even padding: `fastModalPadding_even` (`2M + pr = 2·(M + pr/2)` from `_round_to_multiple(2M, 2·base·xs)`),
+  hence `fastSynth_iota_built`, `fastAnalysis_pad_built` for the shapes the code builds.
+* Latitude derivatives (`cos_lat_d_dlat`, `sec_lat_d_dlat_cos2`): exact `ι`-commutation is FALSE with column
+  padding — `b[:, -1] = 0` zeroes the last *padded* column, so the fast operator writes
+  `cr(L-1)·√((L²−m²)/(4L²−1))·x[m][L-1]` into padding column `L` (`fastDD_iota_colL`).  Proved instead:
+  `fastDD_iota_entries` (every entry), `fastDD_iota_unIota` (block equality), `fastDD_iota_padding_zero`,
+  `fastDD_iota_unpadded` (`pc = 0`: exact), `clip_fastDD_iota` / `laplacian_fastDD_iota` /
+  `inverseLaplacian_fastDD_iota` / `fastSynth_fastDD_iota` (every following masked operation and the
+  synthesis discard the column), `fastDD_block` (`√0 = 0`: block locality for arbitrary fast arrays).
+* `cos_lat_grad`, `div_cos_lat`, `curl_cos_lat`: `…_iota_clip` (exact), `…_iota_noclip` (equal outside
+  column `L`, on the block, value in column `L`); `kCross_iota`; `integrate_pad`.
 -/
 namespace Dino.C09
 open Finset Dino.Lin Dino.SH Dino.SHEquiv Dino.Fourier
@@ -476,6 +488,568 @@ theorem bases_shaped (cs sn : Nat → F) (s2p sp : F) (M N J L pn pr pj pc : Nat
 
 end field
 
+/-! ## C09-2: the modal row padding of the fast layout is even
+
+`modal_shape[0] = _round_to_multiple(2M, 2·base·x_shards)` is a multiple of `2·base·x_shards`, hence even
+and `≥ 2M`: the hypothesis `2*M + pr = 2*H` of `fastSynth_iota` / `fastAnalysis_pad` holds for the
+shapes the code builds, with exactly the `H = M + pr/2` of `bases_shaped`. -/
+section padding
+
+theorem le_roundToMultiple (x m : Nat) (hm : 1 ≤ m) : x ≤ roundToMultiple x m := by
+  unfold roundToMultiple
+  have := Nat.lt_mul_div_succ (x + m - 1) (show 0 < m by omega)
+  rw [Nat.mul_add, Nat.mul_one] at this
+  omega
+
+theorem roundToMultiple_dvd (x m : Nat) : m ∣ roundToMultiple x m := ⟨_, rfl⟩
+
+theorem baseOf_pos (base : Nat) : 1 ≤ baseOf base := by
+  unfold baseOf; split <;> omega
+
+/-- the padded number of modal rows is even and at least `2M` -/
+theorem fastModalShape_rows (M L base xs ys : Nat) (hxs : 1 ≤ xs) :
+    2 * M ≤ (fastModalShape M L base xs ys).1 ∧ (fastModalShape M L base xs ys).1 % 2 = 0 := by
+  have hb := baseOf_pos base
+  have hpos : 1 ≤ 2 * baseOf base * xs := Nat.mul_pos (by omega) (by omega)
+  refine ⟨le_roundToMultiple _ _ hpos, ?_⟩
+  obtain ⟨q, hq⟩ := roundToMultiple_dvd (2 * M) (2 * baseOf base * xs)
+  show roundToMultiple (2 * M) (2 * baseOf base * xs) % 2 = 0
+  rw [hq, Nat.mul_assoc, Nat.mul_assoc]
+  exact Nat.mul_mod_right 2 _
+
+/-- **C09-2** `modal_padding[0]` is even: `2M + pr = 2·(M + pr/2)` for every `M, L`, every
+ `base_shape_multiple` (including `None`/`0`) and every mesh with `x_shards ≥ 1` -/
+theorem fastModalPadding_even (M L base xs ys : Nat) (hxs : 1 ≤ xs) :
+    (fastModalPadding M L base xs ys).1 % 2 = 0 ∧
+    2 * M + (fastModalPadding M L base xs ys).1 = 2 * (M + (fastModalPadding M L base xs ys).1 / 2) ∧
+    2 * M + (fastModalPadding M L base xs ys).1 = (fastModalShape M L base xs ys).1 := by
+  obtain ⟨h1, h2⟩ := fastModalShape_rows M L base xs ys hxs
+  have : (fastModalPadding M L base xs ys).1 = (fastModalShape M L base xs ys).1 - 2 * M := rfl
+  omega
+
+/-- the other three paddings really are `shape − limits` (no truncated subtraction) -/
+theorem fastShapes_ge (M L N J base xs ys : Nat) (hxs : 1 ≤ xs) (hys : 1 ≤ ys) :
+    L ≤ (fastModalShape M L base xs ys).2 ∧ N ≤ (fastNodalShape N J base xs ys).1 ∧
+    J ≤ (fastNodalShape N J base xs ys).2 := by
+  have hb := baseOf_pos base
+  exact ⟨le_roundToMultiple _ _ (Nat.mul_pos (by omega) (by omega)),
+    le_roundToMultiple _ _ (Nat.mul_pos (by omega) (by omega)),
+    le_roundToMultiple _ _ (Nat.mul_pos (by omega) (by omega))⟩
+
+end padding
+
+section built
+variable {F : Type} [Field F]
+
+/-- **T9.1 for the shapes the code builds**: no parity hypothesis is left — the bases are the two
+ `basis` properties, the paddings are `modal_padding` / `nodal_padding` of `FastSphericalHarmonics` -/
+theorem fastSynth_iota_built (cs sn : Nat → F) (s2p sp : F) (M N J L base xs ys : Nat) (hM : 1 ≤ M)
+    (hxs : 1 ≤ xs) (P : List (List (List F))) (w : List F) (hP : P.length = M)
+    (hPj : ∀ pm ∈ P, pm.length = J) (hPl : ∀ pm ∈ P, ∀ pj ∈ pm, pj.length = L) (hw : w.length = J)
+    (x : List (List F)) (hxl : x.length = 2 * M - 1) (hx : ∀ row ∈ x, row.length = L) :
+    fastSynth
+        (fastBasisOf (realBasisZeroImag cs sn s2p sp M N) P w (fastNodalPadding N J base xs ys).1
+          (fastModalPadding M L base xs ys).1 (fastNodalPadding N J base xs ys).2
+          (fastModalPadding M L base xs ys).2 (2 * M) J L)
+        (J + (fastNodalPadding N J base xs ys).2)
+        (iota L (fastModalPadding M L base xs ys).1 (fastModalPadding M L base xs ys).2 x)
+      = padNodal (fastNodalPadding N J base xs ys).1 (fastNodalPadding N J base xs ys).2 J
+          (realSynth (realBasisOf (realBasis cs sn s2p sp M N) P w) J x) := by
+  have hs := bases_shaped cs sn s2p sp M N J L (fastNodalPadding N J base xs ys).1
+    (fastModalPadding M L base xs ys).1 (fastNodalPadding N J base xs ys).2
+    (fastModalPadding M L base xs ys).2 P w hP hPj hPl hw
+  exact fastSynth_iota _ _ M L N J _ _ _ _ _ hM (fastModalPadding_even M L base xs ys hxs).2.1 hs.1 hs.2
+    (iotaRel_bases cs sn s2p sp M N J L _ _ _ _ hM P w hPj hPl) x hxl hx
+
+/-- **T9.2 for the shapes the code builds** (`nrows = modal_shape[0] = 2M + pr`) -/
+theorem fastAnalysis_pad_built (cs sn : Nat → F) (s2p sp : F) (M N J L base xs ys : Nat) (hM : 1 ≤ M)
+    (hxs : 1 ≤ xs) (P : List (List (List F))) (w : List F) (hP : P.length = M)
+    (hPj : ∀ pm ∈ P, pm.length = J) (hPl : ∀ pm ∈ P, ∀ pj ∈ pm, pj.length = L) (hw : w.length = J)
+    (z : List (List F)) (hz : ∀ zi ∈ z, zi.length = J) (hzl : z.length ≤ N) :
+    fastAnalysis
+        (fastBasisOf (realBasisZeroImag cs sn s2p sp M N) P w (fastNodalPadding N J base xs ys).1
+          (fastModalPadding M L base xs ys).1 (fastNodalPadding N J base xs ys).2
+          (fastModalPadding M L base xs ys).2 (2 * M) J L)
+        (fastModalShape M L base xs ys).1
+        (J + (fastNodalPadding N J base xs ys).2) (L + (fastModalPadding M L base xs ys).2)
+        (padNodal (fastNodalPadding N J base xs ys).1 (fastNodalPadding N J base xs ys).2 J z)
+      = iota L (fastModalPadding M L base xs ys).1 (fastModalPadding M L base xs ys).2
+          (realAnalysis (realBasisOf (realBasis cs sn s2p sp M N) P w) (2 * M - 1) J L z) := by
+  have hs := bases_shaped cs sn s2p sp M N J L (fastNodalPadding N J base xs ys).1
+    (fastModalPadding M L base xs ys).1 (fastNodalPadding N J base xs ys).2
+    (fastModalPadding M L base xs ys).2 P w hP hPj hPl hw
+  obtain ⟨_, he, hsh⟩ := fastModalPadding_even M L base xs ys hxs
+  rw [← hsh, he]
+  exact fastAnalysis_pad _ _ M L N J _ _ _ _ _ hM he hs.1 hs.2
+    (iotaRel_bases cs sn s2p sp M N J L _ _ _ _ hM P w hPj hPl) z hz hzl
+
+end built
+
+/-! ## C09-1: the latitude derivatives, `grad` / `div` / `curl`, `k_cross`, `integrate`
+
+`realDD cl cr` / `fastDD cl cr` (`Lemmas/SHEquivLat.lean`) are `cos_lat_d_dlat` and `sec_lat_d_dlat_cos2`
+of the two layouts with the per-`l` factors abstracted (`realCosLatDDlat_eq` … are `rfl`).
+`sqrt : F → F` is an arbitrary function (`√0 = 0` is asked for only where stated).
+
+Exact `ι`-commutation is **false** for the raw derivatives when the fast layout has column padding:
+`b[:, -1] = 0` zeroes the last *padded* column, so column `L - 1` of the fast table `b` keeps the weight
+`√((L² − m²)/(4L² − 1))` and the fast derivative writes `cr(L-1)·b·x[·][L-1]` into padding column `L`.
+What is proved: equality on every other entry, the exact value in column `L`, and that clipping, the
+eigenvalue multipliers, the synthesis and a further latitude derivative all discard that column. -/
+section latitude
+variable {F : Type} [Field F]
+
+theorem ent2_iota_outside (M L pr pc : Nat) (hM : 1 ≤ M) (z : List (List F)) (hz : RealShaped M L z)
+    (i l : Nat) (h : i = 1 ∨ 2 * M ≤ i ∨ L ≤ l) : ent2 (iota L pr pc z) i l = 0 := by
+  rw [ent2_iota]
+  split
+  · rfl
+  · rename_i h1
+    rcases h with h | h | h
+    · exact absurd h h1
+    · have h0 : ¬ i = 0 := by omega
+      rw [if_neg h0]
+      exact ent2_of_length_le z _ l (by rw [hz.1]; omega)
+    · exact ent2_of_width_le z L _ l (fun r hr => le_of_eq (hz.2 r hr)) h
+
+/-- **the fast latitude derivative of `ι x`, entry by entry** (`Dino.SHEquiv.ent2_fastDD_iota`): `ι` of
+ the real derivative everywhere, except in padding column `L` (when `pc ≥ 1`), which holds
+ `cr(L-1) · b_fast[i][L-1] · (ι x)[i][L-1]` -/
+theorem fastDD_iota_entries (cl cr : Nat → F) (sqrt : F → F) (M L pr pc : Nat) (hM : 1 ≤ M)
+    (x : List (List F)) (hxl : x.length = 2 * M - 1) (hx : ∀ r ∈ x, r.length = L) (i l : Nat) :
+    ent2 (fastDD cl cr sqrt M L pr pc (iota L pr pc x)) i l
+      = if l = L ∧ 1 ≤ L ∧ 1 ≤ pc then
+          cr (L - 1) * ent2 (fastWeights sqrt M L pr pc).2 i (L - 1) * ent2 (iota L pr pc x) i (L - 1)
+        else ent2 (iota L pr pc (realDD cl cr sqrt M L x)) i l :=
+  ent2_fastDD_iota cl cr sqrt M L pr pc hM x hxl hx i l
+
+/-- outside column `L` the fast derivative of `ι x` is `ι` of the real derivative -/
+theorem fastDD_iota_eqOff (cl cr : Nat → F) (sqrt : F → F) (M L pr pc : Nat) (hM : 1 ≤ M)
+    (x : List (List F)) (hxl : x.length = 2 * M - 1) (hx : ∀ r ∈ x, r.length = L) :
+    EqOff L (fastDD cl cr sqrt M L pr pc (iota L pr pc x)) (iota L pr pc (realDD cl cr sqrt M L x)) := by
+  intro i l hl
+  rw [ent2_fastDD_iota cl cr sqrt M L pr pc hM x hxl hx, if_neg (fun h => hl h.1)]
+
+theorem cast_pred_add_one (L : Nat) (hL : 1 ≤ L) : ((L - 1 : ℕ) : F) + 1 = (L : F) := by
+  rw [← Nat.cast_succ, Nat.succ_eq_add_one, Nat.sub_add_cancel hL]
+
+/-- **the value left in padding column `L`** (rows of real wavenumbers, `pc ≥ 1`):
+ `cr(L-1) · √([|m| ≤ L-1]·(L² − m²)/(4L² − 1)) · x[r][L-1]` — the exact `l = L` coefficient of the
+ derivative of a field band-limited to `l < L`, which the real layout has no column for -/
+theorem fastDD_iota_colL (cl cr : Nat → F) (sqrt : F → F) (M L pr pc : Nat) (hM : 1 ≤ M) (hL : 1 ≤ L)
+    (hpc : 1 ≤ pc) (x : List (List F)) (hxl : x.length = 2 * M - 1) (hx : ∀ r ∈ x, r.length = L)
+    (r : Nat) (hr : r < 2 * M - 1) :
+    ent2 (fastDD cl cr sqrt M L pr pc (iota L pr pc x)) (src r) L
+      = cr (L - 1)
+        * sqrt (boolK (decide (mAbs M r ≤ L - 1))
+            * (((L : F) * (L : F)) - ((mAbs M r : F) * (mAbs M r : F)))
+            / ((1 + 1) * (1 + 1) * ((L : F) * (L : F)) - 1))
+        * ent2 x r (L - 1) := by
+  have hc : L = L ∧ 1 ≤ L ∧ 1 ≤ pc := ⟨rfl, hL, hpc⟩
+  rw [ent2_fastDD_iota cl cr sqrt M L pr pc hM x hxl hx, if_pos hc,
+    (fastWeights_b_top sqrt M L pr pc hM hL hpc r hr).1, ent2_iota_src]
+  unfold bVal
+  rw [cast_pred_add_one L hL]
+
+/-- row 1, the padding rows and the padding columns beyond `L` of the fast derivative are exactly zero -/
+theorem fastDD_iota_padding_zero (cl cr : Nat → F) (sqrt : F → F) (M L pr pc : Nat) (hM : 1 ≤ M)
+    (x : List (List F)) (hxl : x.length = 2 * M - 1) (hx : ∀ r ∈ x, r.length = L) (i l : Nat)
+    (h : i = 1 ∨ 2 * M ≤ i ∨ L < l) :
+    ent2 (fastDD cl cr sqrt M L pr pc (iota L pr pc x)) i l = 0 := by
+  rw [ent2_fastDD_iota cl cr sqrt M L pr pc hM x hxl hx]
+  split
+  · rename_i hc
+    have h' : i = 1 ∨ 2 * M ≤ i ∨ L ≤ L - 1 := by omega
+    rw [ent2_iota_outside M L pr pc hM x ⟨hxl, hx⟩ i (L - 1) (by omega)]; ring
+  · exact ent2_iota_outside M L pr pc hM _ (realDD_realShaped cl cr sqrt M L hM x ⟨hxl, hx⟩) i l (by omega)
+
+/-- **restricted to the unpadded block the fast derivative of `ι x` is the real derivative of `x`** -/
+theorem fastDD_iota_unIota (cl cr : Nat → F) (sqrt : F → F) (M L pr pc : Nat) (hM : 1 ≤ M)
+    (x : List (List F)) (hxl : x.length = 2 * M - 1) (hx : ∀ r ∈ x, r.length = L) :
+    unIota (2 * M) L (fastDD cl cr sqrt M L pr pc (iota L pr pc x)) = realDD cl cr sqrt M L x := by
+  have hR := realDD_realShaped cl cr sqrt M L hM x ⟨hxl, hx⟩
+  rw [unIota_congr M L pr pc hM _ _
+    (fastDD_fastShaped cl cr sqrt M L pr pc hM _ (iota_fastShaped M L pr pc hM x ⟨hxl, hx⟩))
+    (iota_fastShaped M L pr pc hM _ hR) (fastDD_iota_eqOff cl cr sqrt M L pr pc hM x hxl hx),
+    unIota_iota M L pr pc hM _ hR.1 hR.2]
+
+/-- without column padding (`pc = 0`, any row padding) the commutation is exact -/
+theorem fastDD_iota_unpadded (cl cr : Nat → F) (sqrt : F → F) (M L pr : Nat) (hM : 1 ≤ M)
+    (x : List (List F)) (hxl : x.length = 2 * M - 1) (hx : ∀ r ∈ x, r.length = L) :
+    fastDD cl cr sqrt M L pr 0 (iota L pr 0 x) = iota L pr 0 (realDD cl cr sqrt M L x) := by
+  apply eq_of_shaped M L pr 0 _ _
+    (fastDD_fastShaped cl cr sqrt M L pr 0 hM _ (iota_fastShaped M L pr 0 hM x ⟨hxl, hx⟩))
+    (iota_fastShaped M L pr 0 hM _ (realDD_realShaped cl cr sqrt M L hM x ⟨hxl, hx⟩))
+  intro i l
+  have hc : ¬ (l = L ∧ 1 ≤ L ∧ 1 ≤ 0) := by omega
+  rw [ent2_fastDD_iota cl cr sqrt M L pr 0 hM x hxl hx, if_neg hc]
+
+/-- **`clip_wavenumbers` removes the value in column `L`**: after clipping (any `n ≥ 1`; both raise for
+ `n ≤ 0`) the fast derivative of `ι x` is exactly `ι` of the clipped real derivative -/
+theorem clip_fastDD_iota (cl cr : Nat → F) (sqrt : F → F) (M L pr pc : Nat) (hM : 1 ≤ M) (n : Int)
+    (x : List (List F)) (hxl : x.length = 2 * M - 1) (hx : ∀ r ∈ x, r.length = L) :
+    clipWavenumbers L pc n (fastDD cl cr sqrt M L pr pc (iota L pr pc x))
+      = (clipWavenumbers L 0 n (realDD cl cr sqrt M L x)).map (iota L pr pc) := by
+  have hR := realDD_realShaped cl cr sqrt M L hM x ⟨hxl, hx⟩
+  rw [← clip_iota L pr pc n _ hR.2]
+  unfold clipWavenumbers
+  split
+  · rfl
+  · congr 1
+    apply mulLast_congr M L pr pc _ _ _
+      (fastDD_fastShaped cl cr sqrt M L pr pc hM _ (iota_fastShaped M L pr pc hM x ⟨hxl, hx⟩))
+      (iota_fastShaped M L pr pc hM _ hR) (by simp [clipMask]) ?_
+      (fastDD_iota_eqOff cl cr sqrt M L pr pc hM x hxl hx)
+    rw [ent_clipMask, if_neg (by omega)]
+
+/-- so does the Laplacian (its eigenvalue at the padded `l = 0` is `0`) … -/
+theorem laplacian_fastDD_iota (cl cr : Nat → F) (sqrt : F → F) (r2 : F) (M L pr pc : Nat) (hM : 1 ≤ M)
+    (x : List (List F)) (hxl : x.length = 2 * M - 1) (hx : ∀ r ∈ x, r.length = L) :
+    laplacian r2 L pc (fastDD cl cr sqrt M L pr pc (iota L pr pc x))
+      = iota L pr pc (laplacian r2 L 0 (realDD cl cr sqrt M L x)) := by
+  have hR := realDD_realShaped cl cr sqrt M L hM x ⟨hxl, hx⟩
+  rw [← laplacian_iota r2 L pr pc _ hR.2]
+  unfold laplacian
+  exact mulLast_congr M L pr pc _ _ _
+    (fastDD_fastShaped cl cr sqrt M L pr pc hM _ (iota_fastShaped M L pr pc hM x ⟨hxl, hx⟩))
+    (iota_fastShaped M L pr pc hM _ hR) (by simp [lapEig_length, lvals_length])
+    (eig_padding_zero r2 L pc L (le_refl L)).1 (fastDD_iota_eqOff cl cr sqrt M L pr pc hM x hxl hx)
+
+/-- … and the inverse Laplacian (`inverse_eigenvalues[total_wavenumbers:] = 0`) -/
+theorem inverseLaplacian_fastDD_iota (cl cr : Nat → F) (sqrt : F → F) (r2 : F) (M L pr pc : Nat)
+    (hM : 1 ≤ M) (x : List (List F)) (hxl : x.length = 2 * M - 1) (hx : ∀ r ∈ x, r.length = L) :
+    inverseLaplacian r2 L pc (fastDD cl cr sqrt M L pr pc (iota L pr pc x))
+      = iota L pr pc (inverseLaplacian r2 L 0 (realDD cl cr sqrt M L x)) := by
+  have hR := realDD_realShaped cl cr sqrt M L hM x ⟨hxl, hx⟩
+  rw [← inverseLaplacian_iota r2 L pr pc _ hR.2]
+  unfold inverseLaplacian
+  exact mulLast_congr M L pr pc _ _ _
+    (fastDD_fastShaped cl cr sqrt M L pr pc hM _ (iota_fastShaped M L pr pc hM x ⟨hxl, hx⟩))
+    (iota_fastShaped M L pr pc hM _ hR) (by simp [invEig, lapEig_length, lvals_length])
+    (eig_padding_zero r2 L pc L (le_refl L)).2 (fastDD_iota_eqOff cl cr sqrt M L pr pc hM x hxl hx)
+
+/-- **`to_nodal` discards it**: the synthesis of the raw fast derivative is the padded synthesis of the
+ real derivative (the padded Legendre columns are zero) -/
+theorem fastSynth_fastDD_iota (br bf : Basis F) (M L N J H pn pj pr pc : Nat) (hM : 1 ≤ M)
+    (hpr : 2 * M + pr = 2 * H)
+    (hbr : Shaped br N (2 * M - 1) J L) (hbf : Shaped bf (N + pn) H (J + pj) (L + pc))
+    (hrel : IotaRel br bf M L J) (cl cr : Nat → F) (sqrt : F → F) (x : List (List F))
+    (hxl : x.length = 2 * M - 1) (hx : ∀ row ∈ x, row.length = L) :
+    fastSynth bf (J + pj) (fastDD cl cr sqrt M L pr pc (iota L pr pc x))
+      = padNodal pn pj J (realSynth br J (realDD cl cr sqrt M L x)) := by
+  have hS := fastDD_fastShaped cl cr sqrt M L pr pc hM _ (iota_fastShaped M L pr pc hM x ⟨hxl, hx⟩)
+  rw [fastSynth_eq_real br bf M L N J H pn pj pc hM (by omega) hbr hbf hrel _ (by rw [hS.1]; exact hpr) hS.2,
+    fastDD_iota_unIota cl cr sqrt M L pr pc hM x hxl hx]
+
+/-! ### the two methods of `Grid` -/
+
+/-- `cos_lat_d_dlat`: block equality -/
+theorem fastCosLatDDlat_iota_unIota (sqrt : F → F) (M L pr pc : Nat) (hM : 1 ≤ M)
+    (x : List (List F)) (hxl : x.length = 2 * M - 1) (hx : ∀ r ∈ x, r.length = L) :
+    unIota (2 * M) L (fastCosLatDDlat sqrt M L pr pc (iota L pr pc x)) = realCosLatDDlat sqrt M L x := by
+  rw [fastCosLatDDlat_eq, realCosLatDDlat_eq]
+  exact fastDD_iota_unIota _ _ sqrt M L pr pc hM x hxl hx
+
+/-- `sec_lat_d_dlat_cos2`: block equality -/
+theorem fastSecLatDDlatCos2_iota_unIota (sqrt : F → F) (M L pr pc : Nat) (hM : 1 ≤ M)
+    (x : List (List F)) (hxl : x.length = 2 * M - 1) (hx : ∀ r ∈ x, r.length = L) :
+    unIota (2 * M) L (fastSecLatDDlatCos2 sqrt M L pr pc (iota L pr pc x))
+      = realSecLatDDlatCos2 sqrt M L x := by
+  rw [fastSecLatDDlatCos2_eq, realSecLatDDlatCos2_eq]
+  exact fastDD_iota_unIota _ _ sqrt M L pr pc hM x hxl hx
+
+/-- `cos_lat_d_dlat` writes `−(L−1)·√((L²−m²)/(4L²−1))·x[m, L−1]` into padding column `L` -/
+theorem fastCosLatDDlat_iota_colL (sqrt : F → F) (M L pr pc : Nat) (hM : 1 ≤ M) (hL : 1 ≤ L)
+    (hpc : 1 ≤ pc) (x : List (List F)) (hxl : x.length = 2 * M - 1) (hx : ∀ r ∈ x, r.length = L)
+    (r : Nat) (hr : r < 2 * M - 1) :
+    ent2 (fastCosLatDDlat sqrt M L pr pc (iota L pr pc x)) (src r) L
+      = -((L - 1 : ℕ) : F)
+        * sqrt (boolK (decide (mAbs M r ≤ L - 1))
+            * (((L : F) * (L : F)) - ((mAbs M r : F) * (mAbs M r : F)))
+            / ((1 + 1) * (1 + 1) * ((L : F) * (L : F)) - 1))
+        * ent2 x r (L - 1) := by
+  rw [fastCosLatDDlat_eq]
+  exact fastDD_iota_colL _ _ sqrt M L pr pc hM hL hpc x hxl hx r hr
+
+/-- `sec_lat_d_dlat_cos2` writes `−(L+1)·√((L²−m²)/(4L²−1))·x[m, L−1]` there -/
+theorem fastSecLatDDlatCos2_iota_colL (sqrt : F → F) (M L pr pc : Nat) (hM : 1 ≤ M) (hL : 1 ≤ L)
+    (hpc : 1 ≤ pc) (x : List (List F)) (hxl : x.length = 2 * M - 1) (hx : ∀ r ∈ x, r.length = L)
+    (r : Nat) (hr : r < 2 * M - 1) :
+    ent2 (fastSecLatDDlatCos2 sqrt M L pr pc (iota L pr pc x)) (src r) L
+      = -(((L - 1 : ℕ) : F) + (1 + 1))
+        * sqrt (boolK (decide (mAbs M r ≤ L - 1))
+            * (((L : F) * (L : F)) - ((mAbs M r : F) * (mAbs M r : F)))
+            / ((1 + 1) * (1 + 1) * ((L : F) * (L : F)) - 1))
+        * ent2 x r (L - 1) := by
+  rw [fastSecLatDDlatCos2_eq]
+  exact fastDD_iota_colL _ _ sqrt M L pr pc hM hL hpc x hxl hx r hr
+
+/-- `clip_wavenumbers(cos_lat_d_dlat(·))` commutes with `ι` exactly -/
+theorem clip_fastCosLatDDlat_iota (sqrt : F → F) (M L pr pc : Nat) (hM : 1 ≤ M) (n : Int)
+    (x : List (List F)) (hxl : x.length = 2 * M - 1) (hx : ∀ r ∈ x, r.length = L) :
+    clipWavenumbers L pc n (fastCosLatDDlat sqrt M L pr pc (iota L pr pc x))
+      = (clipWavenumbers L 0 n (realCosLatDDlat sqrt M L x)).map (iota L pr pc) := by
+  rw [fastCosLatDDlat_eq, realCosLatDDlat_eq]
+  exact clip_fastDD_iota _ _ sqrt M L pr pc hM n x hxl hx
+
+theorem clip_fastSecLatDDlatCos2_iota (sqrt : F → F) (M L pr pc : Nat) (hM : 1 ≤ M) (n : Int)
+    (x : List (List F)) (hxl : x.length = 2 * M - 1) (hx : ∀ r ∈ x, r.length = L) :
+    clipWavenumbers L pc n (fastSecLatDDlatCos2 sqrt M L pr pc (iota L pr pc x))
+      = (clipWavenumbers L 0 n (realSecLatDDlatCos2 sqrt M L x)).map (iota L pr pc) := by
+  rw [fastSecLatDDlatCos2_eq, realSecLatDDlatCos2_eq]
+  exact clip_fastDD_iota _ _ sqrt M L pr pc hM n x hxl hx
+
+/-- **block locality** (`√0 = 0`): for *every* array `y` of the fast shape the unpadded block of
+ `cos_lat_d_dlat(y)` is `cos_lat_d_dlat` of the unpadded block of `y` — whatever a previous unclipped
+ derivative left in column `L` (or anything else in row 1 / the padding) cannot reach a resolved
+ coefficient through a further latitude derivative -/
+theorem fastCosLatDDlat_block (sqrt : F → F) (hs : sqrt 0 = 0) (M L pr pc : Nat) (hM : 1 ≤ M)
+    (y : List (List F)) (hyl : y.length = 2 * M + pr) (hy : ∀ r ∈ y, r.length = L + pc) :
+    unIota (2 * M) L (fastCosLatDDlat sqrt M L pr pc y)
+      = realCosLatDDlat sqrt M L (unIota (2 * M) L y) := by
+  rw [fastCosLatDDlat_eq, realCosLatDDlat_eq]
+  exact fastDD_block _ _ sqrt hs M L pr pc hM y hyl hy
+
+theorem fastSecLatDDlatCos2_block (sqrt : F → F) (hs : sqrt 0 = 0) (M L pr pc : Nat) (hM : 1 ≤ M)
+    (y : List (List F)) (hyl : y.length = 2 * M + pr) (hy : ∀ r ∈ y, r.length = L + pc) :
+    unIota (2 * M) L (fastSecLatDDlatCos2 sqrt M L pr pc y)
+      = realSecLatDDlatCos2 sqrt M L (unIota (2 * M) L y) := by
+  rw [fastSecLatDDlatCos2_eq, realSecLatDDlatCos2_eq]
+  exact fastDD_block _ _ sqrt hs M L pr pc hM y hyl hy
+
+end latitude
+
+/-! ## C09-1: `cos_lat_grad`, `div_cos_lat`, `curl_cos_lat`, `k_cross`, `integrate`
+
+With `clip=True` (the default) the three differential operators commute with `ι` **exactly**; with
+`clip=False` they agree with `ι` of the real result on every entry outside padding column `L`, hence on
+the unpadded block, and column `L` holds the characterised value of the latitude derivative divided by
+the radius. -/
+section composites
+variable {F : Type} [Field F]
+
+omit [Field F] in
+theorem realShaped_odd (M L : Nat) (hM : 1 ≤ M) (x : List (List F)) (hx : RealShaped M L x) :
+    x.length % 2 = 1 := by rw [hx.1]; omega
+
+/-- `cos_lat_grad(x, clip=True)` -/
+theorem fastCosLatGrad_iota_clip (sqrt : F → F) (M L pr pc : Nat) (hM : 1 ≤ M) (r : F)
+    (x : List (List F)) (hx : RealShaped M L x) :
+    fastCosLatGrad sqrt M L pr pc r true (iota L pr pc x)
+      = (iota L pr pc (realCosLatGrad sqrt M L r true x).1,
+         iota L pr pc (realCosLatGrad sqrt M L r true x).2) := by
+  have hX := iota_fastShaped M L pr pc hM x hx
+  have hD := realDerivative_realShaped M L x hx
+  have hR := realDD_realShaped (fun l => (l : F) + 1) (fun l => -(l : F)) sqrt M L hM x hx
+  have hE := fastDD_iota_eqOff (fun l => (l : F) + 1) (fun l => -(l : F)) sqrt M L pr pc hM x hx.1 hx.2
+  simp only [fastCosLatGrad, realCosLatGrad, clipIf, if_true, fastCosLatDDlat_eq, realCosLatDDlat_eq]
+  rw [zeroImagDerivative_iota L pr pc x (realShaped_odd M L hM x hx) hx.2,
+    divAll_iota M L pr pc hM _ r hD, clip1_iota M L pr pc hM _ (divAll_realShaped M L _ r hD),
+    clip1_congr M L pr pc _ _
+      (divAll_fastShaped M L pr pc _ r (fastDD_fastShaped _ _ sqrt M L pr pc hM _ hX))
+      (divAll_fastShaped M L pr pc _ r (iota_fastShaped M L pr pc hM _ hR)) (hE.divAll r),
+    divAll_iota M L pr pc hM _ r hR, clip1_iota M L pr pc hM _ (divAll_realShaped M L _ r hR)]
+
+/-- `cos_lat_grad(x, clip=False)`: the longitude component is exact; the latitude component agrees
+ outside column `L`, on the block, and column `L` holds the leaked value of `cos_lat_d_dlat` over `r` -/
+theorem fastCosLatGrad_iota_noclip (sqrt : F → F) (M L pr pc : Nat) (hM : 1 ≤ M) (r : F)
+    (x : List (List F)) (hx : RealShaped M L x) :
+    (fastCosLatGrad sqrt M L pr pc r false (iota L pr pc x)).1
+        = iota L pr pc (realCosLatGrad sqrt M L r false x).1 ∧
+    EqOff L (fastCosLatGrad sqrt M L pr pc r false (iota L pr pc x)).2
+        (iota L pr pc (realCosLatGrad sqrt M L r false x).2) ∧
+    unIota (2 * M) L (fastCosLatGrad sqrt M L pr pc r false (iota L pr pc x)).2
+        = (realCosLatGrad sqrt M L r false x).2 ∧
+    ∀ i, ent2 (fastCosLatGrad sqrt M L pr pc r false (iota L pr pc x)).2 i L
+        = ent2 (fastCosLatDDlat sqrt M L pr pc (iota L pr pc x)) i L / r := by
+  have hX := iota_fastShaped M L pr pc hM x hx
+  have hD := realDerivative_realShaped M L x hx
+  have hR := realDD_realShaped (fun l => (l : F) + 1) (fun l => -(l : F)) sqrt M L hM x hx
+  have hE := fastDD_iota_eqOff (fun l => (l : F) + 1) (fun l => -(l : F)) sqrt M L pr pc hM x hx.1 hx.2
+  have hE' : EqOff L (divAll (fastDD (fun l => (l : F) + 1) (fun l => -(l : F)) sqrt M L pr pc
+      (iota L pr pc x)) r) (iota L pr pc (divAll (realDD (fun l => (l : F) + 1) (fun l => -(l : F))
+      sqrt M L x) r)) := by
+    rw [← divAll_iota M L pr pc hM _ r hR]; exact hE.divAll r
+  simp only [fastCosLatGrad, realCosLatGrad, clipIf, Bool.false_eq_true, if_false, fastCosLatDDlat_eq,
+    realCosLatDDlat_eq]
+  refine ⟨?_, hE', ?_, fun i => ent2_divAll _ r i L⟩
+  · rw [zeroImagDerivative_iota L pr pc x (realShaped_odd M L hM x hx) hx.2,
+      divAll_iota M L pr pc hM _ r hD]
+  · rw [unIota_congr M L pr pc hM _ _
+      (divAll_fastShaped M L pr pc _ r (fastDD_fastShaped _ _ sqrt M L pr pc hM _ hX))
+      (iota_fastShaped M L pr pc hM _ (divAll_realShaped M L _ r hR)) hE',
+      unIota_iota M L pr pc hM _ (divAll_realShaped M L _ r hR).1 (divAll_realShaped M L _ r hR).2]
+
+/-- `div_cos_lat((u, v), clip=True)` -/
+theorem fastDivCosLat_iota_clip (sqrt : F → F) (M L pr pc : Nat) (hM : 1 ≤ M) (r : F)
+    (u v : List (List F)) (hu : RealShaped M L u) (hv : RealShaped M L v) :
+    fastDivCosLat sqrt M L pr pc r true (iota L pr pc u) (iota L pr pc v)
+      = iota L pr pc (realDivCosLat sqrt M L r true u v) := by
+  have hV := iota_fastShaped M L pr pc hM v hv
+  have hD := realDerivative_realShaped M L u hu
+  have hDi := iota_fastShaped M L pr pc hM _ hD
+  have hR := realDD_realShaped (fun l => (l : F) - 1) (fun l => -((l : F) + (1 + 1))) sqrt M L hM v hv
+  have hRi := iota_fastShaped M L pr pc hM _ hR
+  have hS := fastDD_fastShaped (fun l => (l : F) - 1) (fun l => -((l : F) + (1 + 1))) sqrt M L pr pc hM _ hV
+  have hE := fastDD_iota_eqOff (fun l => (l : F) - 1) (fun l => -((l : F) + (1 + 1))) sqrt M L pr pc hM v
+    hv.1 hv.2
+  simp only [fastDivCosLat, realDivCosLat, clipIf, if_true, fastSecLatDDlatCos2_eq, realSecLatDDlatCos2_eq]
+  rw [zeroImagDerivative_iota L pr pc u (realShaped_odd M L hM u hu) hu.2,
+    clip1_congr M L pr pc _ _
+      (divAll_fastShaped M L pr pc _ r (madd_fastShaped M L pr pc _ _ hDi hS))
+      (divAll_fastShaped M L pr pc _ r (madd_fastShaped M L pr pc _ _ hDi hRi))
+      ((hE.madd_left _ (L + pc) (by rw [hDi.1, hS.1]) (by rw [hDi.1, hRi.1]) hDi.2 hS.2 hRi.2).divAll r),
+    madd_iota M L pr pc hM _ _ hD hR, divAll_iota M L pr pc hM _ r (madd_realShaped M L _ _ hD hR),
+    clip1_iota M L pr pc hM _ (divAll_realShaped M L _ r (madd_realShaped M L _ _ hD hR))]
+
+/-- `div_cos_lat((u, v), clip=False)`: equal outside column `L`, equal on the block; column `L` holds
+ the leaked value of `sec_lat_d_dlat_cos2(v)` over `r` -/
+theorem fastDivCosLat_iota_noclip (sqrt : F → F) (M L pr pc : Nat) (hM : 1 ≤ M) (r : F)
+    (u v : List (List F)) (hu : RealShaped M L u) (hv : RealShaped M L v) :
+    EqOff L (fastDivCosLat sqrt M L pr pc r false (iota L pr pc u) (iota L pr pc v))
+        (iota L pr pc (realDivCosLat sqrt M L r false u v)) ∧
+    unIota (2 * M) L (fastDivCosLat sqrt M L pr pc r false (iota L pr pc u) (iota L pr pc v))
+        = realDivCosLat sqrt M L r false u v ∧
+    ∀ i, ent2 (fastDivCosLat sqrt M L pr pc r false (iota L pr pc u) (iota L pr pc v)) i L
+        = ent2 (fastSecLatDDlatCos2 sqrt M L pr pc (iota L pr pc v)) i L / r := by
+  have hV := iota_fastShaped M L pr pc hM v hv
+  have hD := realDerivative_realShaped M L u hu
+  have hDi := iota_fastShaped M L pr pc hM _ hD
+  have hR := realDD_realShaped (fun l => (l : F) - 1) (fun l => -((l : F) + (1 + 1))) sqrt M L hM v hv
+  have hRi := iota_fastShaped M L pr pc hM _ hR
+  have hS := fastDD_fastShaped (fun l => (l : F) - 1) (fun l => -((l : F) + (1 + 1))) sqrt M L pr pc hM _ hV
+  have hE := fastDD_iota_eqOff (fun l => (l : F) - 1) (fun l => -((l : F) + (1 + 1))) sqrt M L pr pc hM v
+    hv.1 hv.2
+  have hQ := divAll_realShaped M L _ r (madd_realShaped M L _ _ hD hR)
+  simp only [fastDivCosLat, realDivCosLat, clipIf, Bool.false_eq_true, if_false, fastSecLatDDlatCos2_eq,
+    realSecLatDDlatCos2_eq]
+  rw [zeroImagDerivative_iota L pr pc u (realShaped_odd M L hM u hu) hu.2]
+  have hE' : EqOff L
+      (divAll (madd (iota L pr pc (Fourier.realDerivative u L))
+        (fastDD (fun l => (l : F) - 1) (fun l => -((l : F) + (1 + 1))) sqrt M L pr pc (iota L pr pc v))) r)
+      (iota L pr pc (divAll (madd (Fourier.realDerivative u L)
+        (realDD (fun l => (l : F) - 1) (fun l => -((l : F) + (1 + 1))) sqrt M L v)) r)) := by
+    rw [← divAll_iota M L pr pc hM _ r (madd_realShaped M L _ _ hD hR), ← madd_iota M L pr pc hM _ _ hD hR]
+    exact (hE.madd_left _ (L + pc) (by rw [hDi.1, hS.1]) (by rw [hDi.1, hRi.1]) hDi.2 hS.2 hRi.2).divAll r
+  refine ⟨hE', ?_, ?_⟩
+  · rw [unIota_congr M L pr pc hM _ _
+      (divAll_fastShaped M L pr pc _ r (madd_fastShaped M L pr pc _ _ hDi hS))
+      (iota_fastShaped M L pr pc hM _ hQ) hE', unIota_iota M L pr pc hM _ hQ.1 hQ.2]
+  · intro i
+    rw [ent2_divAll, ent2_madd _ _ (L + pc) (by rw [hDi.1, hS.1]) hDi.2 hS.2,
+      ent2_iota_outside M L pr pc hM _ hD i L (Or.inr (Or.inr (le_refl L))), zero_add]
+
+/-- `curl_cos_lat((u, v), clip=True)` -/
+theorem fastCurlCosLat_iota_clip (sqrt : F → F) (M L pr pc : Nat) (hM : 1 ≤ M) (r : F)
+    (u v : List (List F)) (hu : RealShaped M L u) (hv : RealShaped M L v) :
+    fastCurlCosLat sqrt M L pr pc r true (iota L pr pc u) (iota L pr pc v)
+      = iota L pr pc (realCurlCosLat sqrt M L r true u v) := by
+  have hU := iota_fastShaped M L pr pc hM u hu
+  have hD := realDerivative_realShaped M L v hv
+  have hDi := iota_fastShaped M L pr pc hM _ hD
+  have hR := realDD_realShaped (fun l => (l : F) - 1) (fun l => -((l : F) + (1 + 1))) sqrt M L hM u hu
+  have hRi := iota_fastShaped M L pr pc hM _ hR
+  have hS := fastDD_fastShaped (fun l => (l : F) - 1) (fun l => -((l : F) + (1 + 1))) sqrt M L pr pc hM _ hU
+  have hE := fastDD_iota_eqOff (fun l => (l : F) - 1) (fun l => -((l : F) + (1 + 1))) sqrt M L pr pc hM u
+    hu.1 hu.2
+  simp only [fastCurlCosLat, realCurlCosLat, clipIf, if_true, fastSecLatDDlatCos2_eq, realSecLatDDlatCos2_eq]
+  rw [zeroImagDerivative_iota L pr pc v (realShaped_odd M L hM v hv) hv.2,
+    clip1_congr M L pr pc _ _
+      (divAll_fastShaped M L pr pc _ r (msub_fastShaped M L pr pc _ _ hDi hS))
+      (divAll_fastShaped M L pr pc _ r (msub_fastShaped M L pr pc _ _ hDi hRi))
+      ((hE.msub_left _ (L + pc) (by rw [hDi.1, hS.1]) (by rw [hDi.1, hRi.1]) hDi.2 hS.2 hRi.2).divAll r),
+    msub_iota M L pr pc hM _ _ hD hR, divAll_iota M L pr pc hM _ r (msub_realShaped M L _ _ hD hR),
+    clip1_iota M L pr pc hM _ (divAll_realShaped M L _ r (msub_realShaped M L _ _ hD hR))]
+
+/-- `curl_cos_lat((u, v), clip=False)`: column `L` holds minus the leaked value of
+ `sec_lat_d_dlat_cos2(u)` over `r` -/
+theorem fastCurlCosLat_iota_noclip (sqrt : F → F) (M L pr pc : Nat) (hM : 1 ≤ M) (r : F)
+    (u v : List (List F)) (hu : RealShaped M L u) (hv : RealShaped M L v) :
+    EqOff L (fastCurlCosLat sqrt M L pr pc r false (iota L pr pc u) (iota L pr pc v))
+        (iota L pr pc (realCurlCosLat sqrt M L r false u v)) ∧
+    unIota (2 * M) L (fastCurlCosLat sqrt M L pr pc r false (iota L pr pc u) (iota L pr pc v))
+        = realCurlCosLat sqrt M L r false u v ∧
+    ∀ i, ent2 (fastCurlCosLat sqrt M L pr pc r false (iota L pr pc u) (iota L pr pc v)) i L
+        = -ent2 (fastSecLatDDlatCos2 sqrt M L pr pc (iota L pr pc u)) i L / r := by
+  have hU := iota_fastShaped M L pr pc hM u hu
+  have hD := realDerivative_realShaped M L v hv
+  have hDi := iota_fastShaped M L pr pc hM _ hD
+  have hR := realDD_realShaped (fun l => (l : F) - 1) (fun l => -((l : F) + (1 + 1))) sqrt M L hM u hu
+  have hRi := iota_fastShaped M L pr pc hM _ hR
+  have hS := fastDD_fastShaped (fun l => (l : F) - 1) (fun l => -((l : F) + (1 + 1))) sqrt M L pr pc hM _ hU
+  have hE := fastDD_iota_eqOff (fun l => (l : F) - 1) (fun l => -((l : F) + (1 + 1))) sqrt M L pr pc hM u
+    hu.1 hu.2
+  have hQ := divAll_realShaped M L _ r (msub_realShaped M L _ _ hD hR)
+  simp only [fastCurlCosLat, realCurlCosLat, clipIf, Bool.false_eq_true, if_false, fastSecLatDDlatCos2_eq,
+    realSecLatDDlatCos2_eq]
+  rw [zeroImagDerivative_iota L pr pc v (realShaped_odd M L hM v hv) hv.2]
+  have hE' : EqOff L
+      (divAll (msub (iota L pr pc (Fourier.realDerivative v L))
+        (fastDD (fun l => (l : F) - 1) (fun l => -((l : F) + (1 + 1))) sqrt M L pr pc (iota L pr pc u))) r)
+      (iota L pr pc (divAll (msub (Fourier.realDerivative v L)
+        (realDD (fun l => (l : F) - 1) (fun l => -((l : F) + (1 + 1))) sqrt M L u)) r)) := by
+    rw [← divAll_iota M L pr pc hM _ r (msub_realShaped M L _ _ hD hR), ← msub_iota M L pr pc hM _ _ hD hR]
+    exact (hE.msub_left _ (L + pc) (by rw [hDi.1, hS.1]) (by rw [hDi.1, hRi.1]) hDi.2 hS.2 hRi.2).divAll r
+  refine ⟨hE', ?_, ?_⟩
+  · rw [unIota_congr M L pr pc hM _ _
+      (divAll_fastShaped M L pr pc _ r (msub_fastShaped M L pr pc _ _ hDi hS))
+      (iota_fastShaped M L pr pc hM _ hQ) hE', unIota_iota M L pr pc hM _ hQ.1 hQ.2]
+  · intro i
+    rw [ent2_divAll, ent2_msub _ _ (L + pc) (by rw [hDi.1, hS.1]) hDi.2 hS.2,
+      ent2_iota_outside M L pr pc hM _ hD i L (Or.inr (Or.inr (le_refl L))), zero_sub]
+
+/-- `k_cross` commutes with `ι` -/
+theorem kCross_iota (M L pr pc : Nat) (hM : 1 ≤ M) (u v : List (List F)) (hv : RealShaped M L v) :
+    kCross (iota L pr pc u) (iota L pr pc v)
+      = (iota L pr pc (kCross u v).1, iota L pr pc (kCross u v).2) := by
+  simp only [kCross]
+  rw [mneg_iota M L pr pc hM v hv]
+
+theorem ent_map_mul_right (w : List F) (c : F) (j : Nat) : ent (w.map (· * c)) j = ent w j * c := by
+  unfold ent
+  simp only [List.getD_eq_getElem?_getD, List.getElem?_map]
+  cases w[j]? <;> simp
+
+theorem dotv_zerosN (a : List F) (n : Nat) : dotv a (zerosN n) = 0 := by
+  rw [dotv_eq_sum a (zerosN n) n (by simp [zerosN])]
+  apply Finset.sum_eq_zero
+  intro i _
+  rw [ent_zerosN]; ring
+
+theorem dotv_padRight (a a' row : List F) (J pj : Nat) (ha : a.length = J) (hrow : row.length = J)
+    (h : ∀ j, j < J → ent a' j = ent a j) : dotv a' (padRight pj row) = dotv a row := by
+  rw [dotv_eq_sum a' _ (J + pj) (by simp [hrow]), dotv_eq_sum a row J (by simp [ha])]
+  rw [sum_range_tail_zero _ J (J + pj) (by omega) (fun j hj => by
+    rw [ent_padRight, ent_of_length_le row j (by omega)]; ring)]
+  apply Finset.sum_congr rfl
+  intro j hj
+  rw [ent_padRight, h j (Finset.mem_range.1 hj)]
+
+/-- **`integrate`**: the integral of the padded nodal field with the padded weights is the integral of
+ the field (whatever the padded weights hold beyond `J`) -/
+theorem integrate_pad (wR wF : List F) (r2 : F) (J pn pj : Nat) (z : List (List F))
+    (hwR : wR.length = J) (hz : ∀ zi ∈ z, zi.length = J) (hw : ∀ j, j < J → ent wF j = ent wR j) :
+    integrate wF r2 (padNodal pn pj J z) = integrate wR r2 z := by
+  unfold integrate padNodal
+  rw [List.map_append, List.sum_append, List.map_map, List.map_replicate, dotv_zerosN, List.sum_replicate,
+    nsmul_zero, add_zero]
+  congr 1
+  apply List.map_congr_left
+  intro row hrow
+  simp only [Function.comp]
+  apply dotv_padRight _ _ row J pj (by simp [hwR]) (hz row hrow)
+  intro j hj
+  rw [ent_map_mul_right, ent_map_mul_right, hw j hj]
+
+/-- … in particular for two `ι`-related bases (the `w` of `IotaRel`) -/
+theorem integrate_pad_of_rel (br bf : Basis F) (M L N J R : Nat) (hbr : Shaped br N R J L)
+    (hrel : IotaRel br bf M L J) (r2 : F) (pn pj : Nat) (z : List (List F))
+    (hz : ∀ zi ∈ z, zi.length = J) :
+    integrate bf.w r2 (padNodal pn pj J z) = integrate br.w r2 z :=
+  integrate_pad br.w bf.w r2 J pn pj z hbr.wl hz hrel.w
+
+end composites
+
 /-! ## non-vacuity: a concrete pair of bases over ℚ
 
 `M = 2, L = 2, N = 3, J = 2`, paddings `(pn, pr, pj, pc) = (1, 2, 1, 1)` (so `H = 3`): the "cosine"
@@ -584,6 +1158,128 @@ example : fastSynthOpt ⟨true, true, "highest"⟩ bfQ 3 (iota 2 2 1 xQ) = fastS
 example : fastAnalysisOpt ⟨true, true, "float32"⟩ bfQ (2 * 3) 3 3 (padNodal 1 1 2 zQ)
     = fastAnalysis bfQ (2 * 3) 3 3 (padNodal 1 1 2 zQ) :=
   fastAnalysisOpt_eq _ bfQ 3 3 3 _
+
+/-! ### C09-1 instantiated: `M = 2, L = 2`, paddings `pr = 2, pc = 1`; `idQ` stands in for `√`
+(the theorems hold for every function; `idQ 0 = 0`) -/
+
+def idQ : ℚ → ℚ := fun q => q
+def vQ : List (List ℚ) := [[2, -1], [0, 7], [1, 1]]
+def yQ : List (List ℚ) := [[1, 2, 9], [7, 7, 7], [3, 4, 9], [5, 6, 9], [8, 8, 8], [9, 9, 9]]
+theorem xQ_shaped : RealShaped 2 2 xQ := ⟨rfl, by decide⟩
+theorem vQ_shaped : RealShaped 2 2 vQ := ⟨rfl, by decide⟩
+
+/-- block equality, every hypothesis discharged -/
+example : unIota (2 * 2) 2 (fastCosLatDDlat idQ 2 2 2 1 (iota 2 2 1 xQ)) = realCosLatDDlat idQ 2 2 xQ :=
+  fastCosLatDDlat_iota_unIota idQ 2 2 2 1 (by omega) xQ rfl (by decide)
+
+/-- the fast result is *not* `ι` of the real result: column `L = 2` is non-zero … -/
+example : fastCosLatDDlat idQ 2 2 2 1 (iota 2 2 1 xQ)
+    = [[4 / 3, 0, -8 / 15], [0, 0, 0], [0, 0, -4 / 5], [0, 0, -6 / 5], [0, 0, 0], [0, 0, 0]] := by
+  simp [fastCosLatDDlat, cosLatDDlat, dDlatWith, fastWeights, recurrenceWeights, fastMvals, fastMask, lvals,
+    shiftLeft, shiftRight, vadd, boolK, xQ, List.range_succ, List.zipIdx, iota, padRight, zerosN, idQ]
+  norm_num
+
+example : realCosLatDDlat idQ 2 2 xQ = [[4 / 3, 0], [0, 0], [0, 0]] := by
+  simp [realCosLatDDlat, cosLatDDlat, dDlatWith, realWeights, recurrenceWeights, realMvals, realMask, lvals,
+    shiftLeft, shiftRight, vadd, boolK, xQ, List.range_succ, List.zipIdx, idQ]
+  norm_num
+
+/-- … and its value is the one of `fastCosLatDDlat_iota_colL` (here `−1 · (4/15) · 2 = −8/15` in row 0) -/
+example : ent2 (fastCosLatDDlat idQ 2 2 2 1 (iota 2 2 1 xQ)) (src 0) 2
+    = -((2 - 1 : ℕ) : ℚ)
+      * idQ (boolK (decide (mAbs 2 0 ≤ 2 - 1)) * (((2 : ℕ) : ℚ) * ((2 : ℕ) : ℚ) - (mAbs 2 0 : ℚ) * (mAbs 2 0 : ℚ))
+          / ((1 + 1) * (1 + 1) * (((2 : ℕ) : ℚ) * ((2 : ℕ) : ℚ)) - 1))
+      * ent2 xQ 0 (2 - 1) :=
+  fastCosLatDDlat_iota_colL idQ 2 2 2 1 (by omega) (by omega) (by omega) xQ rfl (by decide) 0 (by omega)
+
+example : -((2 - 1 : ℕ) : ℚ)
+      * idQ (boolK (decide (mAbs 2 0 ≤ 2 - 1)) * (((2 : ℕ) : ℚ) * ((2 : ℕ) : ℚ) - (mAbs 2 0 : ℚ) * (mAbs 2 0 : ℚ))
+          / ((1 + 1) * (1 + 1) * (((2 : ℕ) : ℚ) * ((2 : ℕ) : ℚ)) - 1))
+      * ent2 xQ 0 (2 - 1) = -8 / 15 := by
+  have h : mAbs 2 0 = 0 := by decide
+  simp [h, idQ, boolK, xQ, ent2]
+  norm_num
+
+/-- clipping removes it -/
+example : clipWavenumbers 2 1 1 (fastCosLatDDlat idQ 2 2 2 1 (iota 2 2 1 xQ))
+    = (clipWavenumbers 2 0 1 (realCosLatDDlat idQ 2 2 xQ)).map (iota 2 2 1) :=
+  clip_fastCosLatDDlat_iota idQ 2 2 2 1 (by omega) 1 xQ rfl (by decide)
+
+/-- block locality on an array with junk in row 1 and in all padding -/
+example : unIota (2 * 2) 2 (fastSecLatDDlatCos2 idQ 2 2 2 1 yQ)
+    = realSecLatDDlatCos2 idQ 2 2 (unIota (2 * 2) 2 yQ) :=
+  fastSecLatDDlatCos2_block idQ rfl 2 2 2 1 (by omega) yQ rfl (by decide)
+
+example : realSecLatDDlatCos2 idQ 2 2 (unIota (2 * 2) 2 yQ) = [[0, -2 / 3], [0, 0], [0, 0]] := by
+  simp [realSecLatDDlatCos2, secLatDDlatCos2, dDlatWith, realWeights, recurrenceWeights, realMvals, realMask,
+    lvals, shiftLeft, shiftRight, vadd, boolK, yQ, unIota, dropRow1, List.range_succ, List.zipIdx, idQ]
+  norm_num
+
+/-- `div_cos_lat` with and without clipping -/
+example : fastDivCosLat idQ 2 2 2 1 (5 / 2) true (iota 2 2 1 xQ) (iota 2 2 1 vQ)
+    = iota 2 2 1 (realDivCosLat idQ 2 2 (5 / 2) true xQ vQ) :=
+  fastDivCosLat_iota_clip idQ 2 2 2 1 (by omega) (5 / 2) xQ vQ xQ_shaped vQ_shaped
+
+example : unIota (2 * 2) 2 (fastDivCosLat idQ 2 2 2 1 (5 / 2) false (iota 2 2 1 xQ) (iota 2 2 1 vQ))
+    = realDivCosLat idQ 2 2 (5 / 2) false xQ vQ :=
+  (fastDivCosLat_iota_noclip idQ 2 2 2 1 (by omega) (5 / 2) xQ vQ xQ_shaped vQ_shaped).2.1
+
+example : realDivCosLat idQ 2 2 (5 / 2) false xQ vQ = [[0, -8 / 15], [2, 12 / 5], [-6 / 5, -8 / 5]] := by
+  simp [realDivCosLat, clipIf, divAll, madd, realSecLatDDlatCos2, secLatDDlatCos2, dDlatWith, realWeights,
+    recurrenceWeights, realMvals, realMask, lvals, shiftLeft, shiftRight, vadd, boolK, xQ, vQ,
+    realDerivative, scale, zerosN, List.range_succ, List.zipIdx, idQ]
+  norm_num
+
+example : fastCurlCosLat idQ 2 2 2 1 (5 / 2) true (iota 2 2 1 xQ) (iota 2 2 1 vQ)
+    = iota 2 2 1 (realCurlCosLat idQ 2 2 (5 / 2) true xQ vQ) :=
+  fastCurlCosLat_iota_clip idQ 2 2 2 1 (by omega) (5 / 2) xQ vQ xQ_shaped vQ_shaped
+
+example : fastCosLatGrad idQ 2 2 2 1 (5 / 2) true (iota 2 2 1 xQ)
+    = (iota 2 2 1 (realCosLatGrad idQ 2 2 (5 / 2) true xQ).1, iota 2 2 1 (realCosLatGrad idQ 2 2 (5 / 2) true xQ).2) :=
+  fastCosLatGrad_iota_clip idQ 2 2 2 1 (by omega) (5 / 2) xQ xQ_shaped
+
+example : kCross (iota 2 2 1 xQ) (iota 2 2 1 vQ) = (iota 2 2 1 (kCross xQ vQ).1, iota 2 2 1 (kCross xQ vQ).2) :=
+  kCross_iota 2 2 2 1 (by omega) xQ vQ vQ_shaped
+
+/-- `integrate`: junk in the padded weight does not matter -/
+example : integrate [1 / 2, 2 / 3, 5] (4 : ℚ) (padNodal 1 1 2 zQ) = integrate wQ 4 zQ :=
+  integrate_pad wQ [1 / 2, 2 / 3, 5] 4 2 1 1 zQ rfl (by decide) (by
+    intro j hj
+    match j, hj with
+    | 0, _ => rfl
+    | 1, _ => rfl)
+
+example : integrate wQ (4 : ℚ) zQ = 86 / 3 := by
+  simp [integrate, dotv, wQ, zQ]
+  norm_num
+
+/-! ### C09-2 instantiated: `base_shape_multiple = 3` gives the paddings `(pr, pc) = (2, 1)`,
+`(pn, pj) = (0, 1)` for `M = 2, L = 2, N = 3, J = 2` -/
+
+example : fastModalPadding 2 2 3 1 1 = (2, 1) ∧ fastNodalPadding 3 2 3 1 1 = (0, 1) := by decide
+
+example : 2 * 2 + (fastModalPadding 2 2 3 1 1).1 = 2 * (2 + (fastModalPadding 2 2 3 1 1).1 / 2) :=
+  (fastModalPadding_even 2 2 3 1 1 (by omega)).2.1
+
+/-- T9.1 with no parity hypothesis left -/
+example : fastSynth
+      (fastBasisOf (realBasisZeroImag csQ snQ (5 / 2) (7 / 4) 2 3) PQ wQ (fastNodalPadding 3 2 3 1 1).1
+        (fastModalPadding 2 2 3 1 1).1 (fastNodalPadding 3 2 3 1 1).2 (fastModalPadding 2 2 3 1 1).2 (2 * 2) 2 2)
+      (2 + (fastNodalPadding 3 2 3 1 1).2)
+      (iota 2 (fastModalPadding 2 2 3 1 1).1 (fastModalPadding 2 2 3 1 1).2 xQ)
+    = padNodal (fastNodalPadding 3 2 3 1 1).1 (fastNodalPadding 3 2 3 1 1).2 2 (realSynth brQ 2 xQ) :=
+  fastSynth_iota_built csQ snQ (5 / 2) (7 / 4) 2 3 2 2 3 1 1 (by omega) (by omega) PQ wQ rfl PQ_rows PQ_cols
+    rfl xQ rfl (by decide)
+
+example : fastAnalysis
+      (fastBasisOf (realBasisZeroImag csQ snQ (5 / 2) (7 / 4) 2 3) PQ wQ (fastNodalPadding 3 2 3 1 1).1
+        (fastModalPadding 2 2 3 1 1).1 (fastNodalPadding 3 2 3 1 1).2 (fastModalPadding 2 2 3 1 1).2 (2 * 2) 2 2)
+      (fastModalShape 2 2 3 1 1).1 (2 + (fastNodalPadding 3 2 3 1 1).2) (2 + (fastModalPadding 2 2 3 1 1).2)
+      (padNodal (fastNodalPadding 3 2 3 1 1).1 (fastNodalPadding 3 2 3 1 1).2 2 zQ)
+    = iota 2 (fastModalPadding 2 2 3 1 1).1 (fastModalPadding 2 2 3 1 1).2
+        (realAnalysis brQ (2 * 2 - 1) 2 2 zQ) :=
+  fastAnalysis_pad_built csQ snQ (5 / 2) (7 / 4) 2 3 2 2 3 1 1 (by omega) (by omega) PQ wQ rfl PQ_rows PQ_cols
+    rfl zQ (by decide) (by decide)
 
 end examples
 
